@@ -746,7 +746,7 @@ class C09(Spec):
         if r.random() < 0.2:
             # the child's run ends with a change that nothing in its own stack delivers (a contribution booked after the last
             # rebalance): the refresh after the run is the runner's job, for the stand-alone backtest and for the paper copy alike
-            cst = cst + [{"a": "CapitalFlow", "args": [r.choice([1000.0, 25000.0, 2e5, -1000.0])]}]  # (never enough to drain the book)
+            cst = cst + [{"a": "CapitalFlow", "args": [r.choice([1000.0, 25000.0, 2e5, 500.0])]}]  # (contributions only: a fixed withdrawal would drain a live child that its parent funds with little)
             fired["child_run_ends_with_pending_flow"] = 1
         child = {"k": "S", "name": "kid", "cls": "Strategy", "fi": False, "how": "list", "children": [], "algos": cst}
         if r.random() < 0.4:
